@@ -22,7 +22,8 @@ HStep(st, e, t) ==
            ELSE IF e.val # 6 /\ ~(st.restore /\ e.val = st.mode00) THEN Bad(st, "a mode other than HOMING (or the restored previous mode) was written")
            ELSE Good([st EXCEPT !.mode = e.val])
       [] e.e = "cw" ->
-           LET d2 == DriveStep(st.drv, e.val, st.prev) IN
+           \* (ign: the drive simulator did not act on a fault reset because the cause of the fault persists)
+           LET d2 == IF e.ign THEN st.drv ELSE DriveStep(st.drv, e.val, st.prev) IN
            IF d2 # e.after THEN Bad(st, "HARNESS: drive simulator reaction differs from the CiA 402 state machine")
            ELSE IF st.call = "qcall" THEN Bad(st, "is_homed() wrote a controlword")
            ELSE IF StartEdge(e.val, st.prev) /\ ~StartAccepted(st.drv, st.mode, e.val, st.prev)
